@@ -34,9 +34,51 @@ def npieces(plen, total):
     return (total + plen - 1) // plen
 
 
-def header(lay, seed, rc, peers):
+def header(lay, seed, rc, peers, pre=0):
     plen, total, have = lay
-    return "plen=%d total=%d seed=%d have=%s rc=%d peers=%s" % (plen, total, seed, have, rc, ",".join(peers))
+    return "plen=%d total=%d seed=%d have=%s rc=%d%s peers=%s" % (plen, total, seed, have, rc, " pre=%d" % pre if pre else "", ",".join(peers))
+
+
+def content_byte(seed, g):
+    x = (g + 1000003 * seed) & 0xffffffff
+    return ((((x * 2654435761) & 0xffffffff) >> 24) ^ (x & 0xff)) & 0xff
+
+
+def content(seed, off, n):
+    return bytes(content_byte(seed, off + k) for k in range(n))
+
+
+_NUL_CACHE = {}
+
+
+def nul_digest_cases(start_seed, want, nulpos):
+    """Pieces whose recorded SHA-1 has its first NUL byte at index nulpos, and hostile data (2..3 bytes replaced) whose SHA-1
+    agrees with the recorded one up to and including that NUL but differs afterwards: a digest comparison that stops at
+    a NUL (string comparison) accepts it. Layout: one piece of 2048 bytes. Returns [(content_seed, pos, hexbytes)]."""
+    key = (start_seed, want, nulpos)
+    if key in _NUL_CACHE:
+        return _NUL_CACHE[key]
+    out, s = [], start_seed
+    while len(out) < want and s < start_seed + 200000:
+        s += 1
+        data = content(s, 0, 2048)
+        dg = hashlib.sha1(data).digest()
+        if dg.find(b"\0") != nulpos:
+            continue
+        pos = 5 + (s % 1000)
+        found = None
+        for v in range(1 << 24):
+            rep = v.to_bytes(3, "big")
+            if data[pos:pos + 3] == rep:
+                continue
+            d2 = hashlib.sha1(data[:pos] + rep + data[pos + 3:]).digest()
+            if d2[:nulpos + 1] == dg[:nulpos + 1] and d2 != dg:
+                found = rep
+                break
+        if found:
+            out.append((s, pos, found.hex()))
+    _NUL_CACHE[key] = out
+    return out
 
 
 def hand_cases():
@@ -85,6 +127,14 @@ def hand_cases():
     out.append((header(L[1], 6, 0, ["0a", "0ai"]), "K:1 P:1 T:7 P:1 N:1 F:9", "choke"))
     out.append((header(L[4], 6, 0, ["0ai", "0a"]), "B:0:300 K:0 M:0:100000 P:0 T:70 N:0 F:9", "choke"))
     out.append((header(L[3], 6, 0, ["0a"]), "P:0:1 P:0 W F:5", "out-of-order"))
+    # recorded digest with an early NUL byte + hostile data whose digest agrees up to that NUL
+    for cs, pos, hx in nul_digest_cases(1000, 3, 0) + nul_digest_cases(5000, 1, 1):
+        out.append((header(L[0], cs, 0, ["9x0_%d_%s" % (pos, hx), "0a"]), "P:0 W T:130 F:12", "nul-digest"))
+        out.append((header(L[0], cs, 0, ["9x0_%d_%s" % (pos, hx)]), "F:6", "nul-digest"))
+    # stale, longer files already in the download directory
+    for lay, pre in ((L[1], 1), (L[4], 777), (L[0], 5000), (L[7], 1)):
+        out.append((header(lay, 8, 0, ["0a"], pre), "F:30", "stale-files"))
+    out.append((header(L[1], 8, 5, ["1k1", "0a"], 100), "F:30", "stale-files"))
     return out
 
 
